@@ -302,7 +302,7 @@ impl Pool {
 	fn anns(&self, r: &mut Rng) -> Vec<Annotation> { if r.chance(1, 3) { (0..r.range(1, 2)).map(|_| self.ann(r, 0)).collect() } else { vec![] } }
 	fn attrs(&self, r: &mut Rng) -> Vec<Attribute> { if !self.clean && r.chance(1, 6) { vec![Attribute { name: js("Unknown"), bytes: vec![0, r.below(200) as u8] }] } else { vec![] } }
 	fn vt(&self, r: &mut Rng) -> VerificationTypeInfo {
-		match r.below(5) { 0 => VerificationTypeInfo::Top, 1 => VerificationTypeInfo::Integer, 2 => VerificationTypeInfo::Null, _ => VerificationTypeInfo::Object(cn(&self.any(r))) }
+		match r.below(6) { 0 => VerificationTypeInfo::Top, 1 => VerificationTypeInfo::Integer, 2 => VerificationTypeInfo::Null, 3 => VerificationTypeInfo::UninitializedThis, _ => VerificationTypeInfo::Object(cn(&self.any(r))) }
 	}
 	fn frame(&self, r: &mut Rng) -> StackMapData {
 		match r.below(5) {
